@@ -276,6 +276,7 @@ class Value:
         self.address_ = addr
         self.raw = raw
         self.is_optimized_out = False
+        self._fetched = None      # like gdb: a lazy value reads inferior memory once and keeps the contents
 
     # -- scalar reads
     def _scalar(self):
@@ -284,7 +285,9 @@ class Value:
             raise error('Cannot convert value to long.')
         if self.raw is not None:
             return self.raw
-        data = _sim.mem.read(self.address_, t.sizeof if t.code != TYPE_CODE_PTR else 8)
+        if self._fetched is None:
+            self._fetched = _sim.mem.read(self.address_, t.sizeof if t.code != TYPE_CODE_PTR else 8)
+        data = self._fetched
         if t.code == TYPE_CODE_PTR:
             return struct.unpack('<Q', data)[0]
         fmt = {1: 'b', 2: 'h', 4: 'i', 8: 'q'}[t.sizeof]
